@@ -300,6 +300,7 @@ func init() {
 		Designs: []core.Design{
 			{Name: "normalize", Module: "Normalize", Cfg: "Normalize_quick.cfg", Tier: "quick", Workers: 4, XmxMB: 4000, Timeout: 10 * time.Minute, ToCases: normalizeCases},
 			{Name: "normalize", Module: "Normalize", Cfg: "Normalize_thorough.cfg", Tier: "thorough", Workers: 16, XmxMB: 8000, Timeout: 30 * time.Minute, ToCases: normalizeCases},
+			{Name: "pbprop", Module: "PBProp", Cfg: "PBProp.cfg", Workers: 6, XmxMB: 4000, Timeout: 10 * time.Minute},
 		},
 		TraceModule: "APITrace",
 		Cases: func(env *core.Env) []core.Case {
@@ -331,6 +332,11 @@ func init() {
 	register(&core.Check{
 		ID:          "C03",
 		Amplify:     amplifyAPI,
+		Designs: []core.Design{
+			{Name: "optimize", Module: "Optimize", Cfg: "Optimize.cfg", Workers: 8, XmxMB: 6000, Timeout: 10 * time.Minute},
+			{Name: "optimize-negative-weights", Module: "Optimize", Cfg: "Optimize_neg.cfg", Workers: 2, XmxMB: 2000, Timeout: 5 * time.Minute, ExpectViolation: "Optimal"},
+			{Name: "pbprop-zero-weight", Module: "PBProp", Cfg: "PBProp_zero.cfg", Workers: 2, XmxMB: 2000, Timeout: 5 * time.Minute, ExpectViolation: "Sound"},
+		},
 		TraceModule: "APITrace",
 		Budget:      0,
 		Cases: func(env *core.Env) []core.Case {
